@@ -29,6 +29,8 @@
 (assert (forall ((a (Array Int Int)) (o Int) (n Int)) (! (=> (>= n 0) (= (blen (bs a o n)) n)) :pattern ((bs a o n)))))
 ; zero padding: n zero bytes; prepending a zero byte; leading zeros do not change the big-endian value
 (assert (= (zeros 0) bempty))
+; a non-negative machine word encodes in at most 8 bytes
+(assert (forall ((x Int)) (! (=> (and (<= 0 x) (< x 18446744073709551616)) (<= (blen (be x)) 8)) :pattern ((be x)))))
 (assert (forall ((n Int)) (! (=> (>= n 0) (= (cat (single 0) (zeros n)) (zeros (+ n 1)))) :pattern ((cat (single 0) (zeros n))))))
 (assert (forall ((n Int) (s BStr)) (! (=> (>= n 0) (= (cat (single 0) (cat (zeros n) s)) (cat (zeros (+ n 1)) s))) :pattern ((cat (single 0) (cat (zeros n) s))))))
 (assert (forall ((n Int) (s BStr)) (! (=> (>= n 0) (= (beint (cat (zeros n) s)) (beint s))) :pattern ((cat (zeros n) s)))))
@@ -175,3 +177,6 @@
 ; ----- signature verification predicates (crypto/ecdsa.Verify, edwards.Verify): curve, public key, message bytes, r, s -----
 (declare-fun ecdsaverify (Iface Int Int BStr Int Int) Bool)
 (declare-fun eddsaverify (Iface Int Int BStr Int Int) Bool)
+
+; ----- cofactor clearing on the Edwards curve: the point has no small-order component -----
+(declare-fun torsionfree (Iface Int Int) Bool)
